@@ -216,3 +216,5 @@ func (o *Outcome) reqOfTask(task int) *ReqRec {
 	}
 	return nil
 }
+
+func sortStrings(s []string) { sort.Strings(s) }
